@@ -51,8 +51,8 @@ func Run(c *hl.Ctx, withSegs bool) error {
 	}
 	corpus := Harvest(repo)
 	step := 1
-	if c.Quick() && len(corpus) > 2500 {
-		step = len(corpus)/2500 + 1
+	if c.Quick() && len(corpus) > 1500 {
+		step = len(corpus)/1500 + 1
 	}
 	off := r.Intn(step)
 	for i := off; i < len(corpus); i += step {
@@ -68,7 +68,7 @@ func Run(c *hl.Ctx, withSegs bool) error {
 	}
 
 	// 2. grammar stream, 3. mutation stream, 4. raw bytes
-	n := c.Pick(2500, 250000)
+	n := c.Pick(1600, 250000)
 	for i := 0; i < n; i++ {
 		p := g.Program()
 		all([]byte(p))
